@@ -48,13 +48,13 @@ ArgsOK(e, p) ==
         => S'.loc[p].j = e.job
   /\ e.ev = "disp.deq" => (S'.loc[p].j = 0) = ~e.ok
   /\ e.ev \in {"add.enq", "disp.proc"} => S'.loc[p].ok = e.ok
-  /\ e.ev \in {"disp.node", "node.init", "serve.recv", "serve.freed", "stopall.removed", "tune.popped", "reap.removed", "reap.stopped"} => S'.loc[p].node = e.node
+  /\ e.ev \in {"disp.node", "node.init", "serve.recv", "serve.freed", "free.push", "free.stop", "stopall.removed", "tune.popped", "reap.removed", "reap.stopped"} => S'.loc[p].node = e.node
   /\ e.ev = "rel.enter" => S'.loc[p].n = e.n
   /\ e.ev = "purge.deq" => S'.loc[p].ok = e.ok
 
 \* lines that are not the end of a spec step: notes, and the second-layer hook points inside one step
 Inner == {"ad.sub", "job.sp.load", "job.mc.load", "jclose.checked", "disp.cas.load", "reap.expired", "add.pre", "resp.stored"}
-NoStep == {"call", "ret", "c.start", "loop.start", "notify.sent", "notify.dropped", "free.push", "free.stop", "quiescent"} \cup Inner
+NoStep == {"call", "ret", "c.start", "loop.start", "notify.sent", "notify.dropped", "quiescent"} \cup Inner
 
 \* a line of a process parked at the label it reached
 T_Hook ==
@@ -106,7 +106,7 @@ T_PoolNotify ==
 T_Note ==
   /\ l <= Len(Tr)
   /\ LET e == Tr[l] IN
-     /\ e.ev \in {"call", "c.start", "loop.start", "notify.sent", "notify.dropped", "free.push", "free.stop", "quiescent"} \cup Inner
+     /\ e.ev \in {"call", "c.start", "loop.start", "notify.sent", "notify.dropped", "quiescent"} \cup Inner
      /\ e.ev \in {"notify.sent", "notify.dropped"} => ~IsPool(e.p)
      /\ e.ev = "call" => S.pc[e.p] = "call" /\ HasOp(e.p) /\ Op(e.p).op = e.op
      /\ e.ev = "loop.start" => S.pc[e.p] = "loop.start"
